@@ -6,7 +6,8 @@ id=$1; prop=$2; shift 2
 wt=/tmp/mut/work_$id
 git -C /repo worktree remove --force $wt 2>/dev/null
 git -C /repo worktree add --detach $wt HEAD -q || exit 3
-git -C $wt apply /verif/seeded/$id/patch.diff || { echo "patch does not apply on HEAD"; git -C /repo worktree remove --force $wt; exit 3; }
+pf=/verif/seeded/$id/patch.diff; [ -f /verif/seeded/$id/patch_head.diff ] && pf=/verif/seeded/$id/patch_head.diff  # rebased onto the repaired tree
+git -C $wt apply $pf || { echo "patch does not apply on HEAD"; git -C /repo worktree remove --force $wt; exit 3; }
 VERIF_REPO=$wt /verif/vcheck $prop "$@" > /tmp/mut_$id.log 2>&1
 rc=$?
 git -C /repo worktree remove --force $wt
